@@ -23,7 +23,8 @@ ASSUMPTIONS = ["for the regex subset generated CPython's matcher finds a prefix 
                "purity (input frame unmodified) is observed on the implementation, not proved: model inputs are immutable by construction"]
 
 PATTERNS = ["aten::", "aten::.*", "nccl", "^nccl", ".*Kernel", "cuda(Launch|Memcpy).*", "Memc?py", "aten::(add|mul)_?", "[a-c].*",
-            "ProfilerStep#[0-9]+", "Mem(cpy|set) .toD", "void .*<", "(aten|cuda).+", "", "cudaLaunchKernel", ".*Sync"]
+            "ProfilerStep#[0-9]+", "Mem(cpy|set) .toD", "void .*<", "(aten|cuda).+", "", "cudaLaunchKernel", ".*Sync",
+            "nccl|Memcpy", "aten::add|Launch", "Kernel|Sync|mul"]       # ungrouped alternations: every alternative is anchored at the start
 
 
 class Stop(Exception):
